@@ -95,7 +95,27 @@ def make_ops(seed):
         fastavro.json_writer(so, P["REC"], [rec])
         return [so.getvalue(), [canon(to_wire(x)) for x in fastavro.json_reader(io.StringIO(so.getvalue()), P["REC"])]]
 
+    def container_write_null():
+        fo = io.BytesIO()
+        fastavro.writer(fo, P["REC"], [rec], codec="null", sync_marker=b"0123456789abcdef")
+        return fo.getvalue().hex()
+
+    def container_write_bzip2():
+        from fastavro.write import Writer
+        fo = io.BytesIO()
+        w = Writer(fo, P["REC"], codec="bzip2", sync_marker=b"0123456789abcdef")
+        w.write(rec)
+        w.flush()
+        return fo.getvalue().hex()
+
+    def expand_parsed():
+        from fastavro.schema import expand_schema
+        return to_parsing_canonical_form(parse_schema(P["REC"], expand=True)) + "|" + str(len(str(expand_schema(P["REC"]))))
+
     ops = {
+        "container-write-null": container_write_null,
+        "container-write-bzip2": container_write_bzip2,
+        "expand-parsed": expand_parsed,
         "write-record": lambda: enc(P["REC"], rec).hex(),
         "read-record": lambda: canon(to_wire(schemaless_reader(io.BytesIO(b_rec), P["REC"]))),
         "validate-record": lambda: validate(rec, P["REC"], raise_errors=False),
@@ -111,7 +131,8 @@ def make_ops(seed):
         "read-decimal-p2": lambda: str(schemaless_reader(io.BytesIO(b2), D2)),
         "read-decimal-fixed-p9": lambda: str(schemaless_reader(io.BytesIO(b9), D9)),
     }
-    return ops
+    ops_shared = [P[k] for k in sorted(P)]
+    return ops, ops_shared
 
 
 def count_points(op):
@@ -134,6 +155,100 @@ def count_points(op):
     finally:
         sys.settrace(None)
     return n[0]
+
+
+_SHARED_OBJS = None
+_MODULE_GLOBALS = None
+
+
+def _shared_objects():
+    """mutable module-level objects and mutable default arguments of every function / method of the package"""
+    import types
+    objs = []
+    for name, mod in sorted(sys.modules.items()):
+        if not (name == "fastavro" or name.startswith("fastavro.")) or mod is None:
+            continue
+        for k, v in sorted(vars(mod).items()):
+            if k.startswith("__"):
+                continue
+            if isinstance(v, (dict, list, set, bytearray)):
+                objs.append(v)
+            elif isinstance(v, types.FunctionType):
+                objs += [dv for dv in (v.__defaults__ or ()) + tuple((v.__kwdefaults__ or {}).values()) if isinstance(dv, (dict, list, set, bytearray))]
+            elif isinstance(v, type) and v.__module__ == name:
+                for mv in vars(v).values():
+                    if isinstance(mv, types.FunctionType):
+                        objs += [dv for dv in (mv.__defaults__ or ()) + tuple((mv.__kwdefaults__ or {}).values())
+                                 if isinstance(dv, (dict, list, set, bytearray))]
+            elif hasattr(v, "__dict__") and not isinstance(v, (types.ModuleType, type, types.FunctionType)) \
+                    and type(v).__module__.split(".")[0] in ("fastavro", "decimal", "threading", "_thread"):
+                objs.append(v)
+    return objs
+
+
+def _sig(o):
+    """shallow signature: membership and identity of the members (an insertion, deletion or re-binding changes it)"""
+    if isinstance(o, dict):
+        return tuple((id(k), id(v)) for k, v in o.items())
+    if isinstance(o, (list, bytearray)):
+        return (len(o), tuple(map(id, o)) if isinstance(o, list) else bytes(o))
+    if isinstance(o, set):
+        return len(o)
+    try:
+        return tuple((k, id(v)) for k, v in vars(o).items()) or repr(o)
+    except TypeError:
+        return repr(o)
+
+
+def shared_state_digest(shared):
+    """a cheap fingerprint of everything operations could share (see _shared_objects) plus, deeply, the parsed
+    schemas handed to several operations"""
+    global _SHARED_OBJS, _MODULE_GLOBALS
+    if _SHARED_OBJS is None:
+        import types
+        _SHARED_OBJS = _shared_objects()
+        _MODULE_GLOBALS = [(vars(mod), [k for k, v in vars(mod).items() if not k.startswith("__")
+                                        and not isinstance(v, (types.FunctionType, type, types.ModuleType))])
+                           for name, mod in sorted(sys.modules.items())
+                           if (name == "fastavro" or name.startswith("fastavro.")) and mod is not None]
+    # re-binding of module-level names (`global X; X = ...`): identity of every non-callable global, number of globals
+    mods = tuple((len(d), tuple(id(d.get(k)) for k in keys)) for d, keys in _MODULE_GLOBALS)
+    return hash((tuple(_sig(o) for o in _SHARED_OBJS), mods, repr(shared)))
+
+
+def dirty_points(op, shared):
+    """line events of `op` (run alone) right after which the shared state differs from what it was one line before:
+    the windows in which another thread could observe — or disturb — a half-done update"""
+    changes = []
+    n = [0]
+    last = [shared_state_digest(shared)]
+
+    def tracer(frame, event, arg):
+        if not frame.f_code.co_filename.startswith(PKG):
+            return None
+
+        def hit():
+            n[0] += 1
+            d = shared_state_digest(shared)
+            if d != last[0]:
+                last[0] = d
+                changes.append(n[0])
+
+        def local(frame, event, arg):
+            if event == "line":
+                hit()
+            return local
+        hit()
+        return local
+    sys.settrace(tracer)
+    try:
+        outcome(op)
+    finally:
+        sys.settrace(None)
+    pts = set()
+    for c in changes[:12]:
+        pts.update(range(c, c + 20))
+    return sorted(pts), changes
 
 
 def run_preempted(opA, opB, k):
@@ -193,8 +308,21 @@ def run(tier, seed):
                 "chosen pre-emption point (quick: up to 24 evenly spaced points plus every point inside functions that touch a "
                 "module-level state object; thorough: every point); results compared with the sequential ones")
     run.lean(TARGETS, THEOREMS)
-    ops = make_ops(seed)
+    ops, ops_shared = make_ops(seed)
     alone = {k: outcome(f) for k, f in ops.items()}
+    # windows in which an operation, run alone, has changed state that operations share (found dynamically, whatever the
+    # static effect table says): every point of those windows is a pre-emption point for every partner
+    dirty = {}
+    for k_, f_ in ops.items():
+        pts, changes = dirty_points(f_, ops_shared)
+        dirty[k_] = pts
+        if changes:
+            run.tag("shared-state-changes:" + k_, len(changes))
+    alone2 = {k: outcome(f) for k, f in ops.items()}
+    for k_ in ops:
+        if alone2[k_] != alone[k_]:
+            run.fail({"op": k_, "first": alone[k_], "again": alone2[k_], "tags": ["sequential"]},
+                     "an operation run a second time (sequentially) gives another result", kind="oracle")
     names = sorted(ops)
     cap = 24 if tier == "quick" else 10 ** 9
     # functions that touch module-level state objects (from the effect table's local summaries)
@@ -204,13 +332,18 @@ def run(tier, seed):
     for a in names:
         na = count_points(ops[a])
         for b in names:
-            if tier == "quick" and (zlib.crc32(("%s|%s|%d" % (a, b, seed)).encode()) % 3 != 0) and not (a.startswith("read-decimal") and b.startswith("read-decimal")):
+            if tier == "quick" and (zlib.crc32(("%s|%s|%d" % (a, b, seed)).encode()) % 3 != 0) and not (a.startswith("read-decimal") and b.startswith("read-decimal")) \
+                    and not dirty[a]:
                 continue
             if na <= cap:
                 points = list(range(1, na + 1))
             else:
                 step = na / float(cap)
                 points = sorted({int(1 + i * step) for i in range(cap)})
+            if dirty[a]:
+                if tier == "quick" and (zlib.crc32(("%s|%s|%d" % (a, b, seed)).encode()) % 3 != 0):
+                    points = []          # pair not selected for the even sweep: only the dirty windows
+                points = sorted(set(points) | set(p_ for p_ in dirty[a] if p_ <= na))
             # always include the points inside functions that write module-level state
             if touchy:
                 extra = []
